@@ -74,6 +74,19 @@ CHECKS = {
                      "definitions for all (n,d). Complete for the stated space.",
                 note="NV instruction semantics (rot, crot) as in the NetQASM paper; float tolerance 1e-9",
                 ref="3/C07"),
+    "C09": dict(cat="model_checking", tech="explicit-state BFS over SDK qubit-operation histories, every history replayed on the real SDK-to-controller pipeline with an allocation-checking executor",
+                text="Breadth-first search over histories of qubit creation, gates, cnot, in-place and destructive measurement, free, "
+                     "create/recv_keep(1|2), sequential keep with a measuring post routine, sequential and non-sequential EPR contexts "
+                     "and flush, enabled only while the live qubits stay within the budget (budget-1 on single-communication-qubit "
+                     "hardware), for budgets 1..5 x {generic, NV config, NV config + NV transpiler}, hashing handle ids, a digest of "
+                     "the pending commands, the builder's qubit list and the controller's unit module. Every flush must execute "
+                     "without allocation faults (gate on unallocated qubit, double allocation, free of unallocated, id outside the "
+                     "unit module) and afterwards conn.active_qubits, the handles the program still holds and the controller's "
+                     "allocated virtual ids must be the same set.",
+                note="depth 3-5 quick / 5-8 thorough per budget (state caps reported); EPR responses delivered on demand, all Phi+; open "
+                     "known findings for NV-only SDK defects (non-sequential NV context deadlock, hard-coded NV memory ids, carbon-carbon "
+                     "gate through an unallocated electron)",
+                ref="3/C09"),
     "C11": dict(cat="exploration", tech="bounded-exhaustive enumeration of EPRSocket API calls and scripted link-layer responses through the real SDK-to-executor pipeline with a recording network stack",
                 text="For every public EPRSocket create/recv entry point and the parameter lattice (number 1..3; all TimeUnit, EprMeasBasis "
                      "and RandomBasis members; each rotation component 0..31 and the {0,1,31}^3 cubes; sockets {0,1,3}; two remote nodes; "
@@ -85,6 +98,20 @@ CHECKS = {
                 note="delivery schedule fixed to 'next pair when a wait blocks' (interleavings are C12); measurement_outcome compared only "
                      "where no Bell post-processing applies (C10); the R-to-qlink-1.0 conversion refusal is counted, not judged",
                 ref="3/C11"),
+    "C13": dict(cat="model_checking", tech="explicit-state BFS with exact canonical hashing over controller histories replayed on the real QNodeController/Executor, per-state invariants plus prefix-replica fault check",
+                text="Explicit-state BFS over controller histories on the real QNodeController/Executor/SharedMemoryManager, driven through the "
+                     "message-level lifecycle (init/stop/subroutine bytes) and the executor's response API: init, stop, qalloc, qfree, gate, "
+                     "classical writes with app-tagged values, recv_epr (subroutine suspended in its wait), keep-response (handled or "
+                     "deferred) and retry, for up to 3 applications on 1-2 controllers with unit modules 1..4. After every transition: "
+                     "(app,virtual)->physical injective, used set == mapped set, every other application bit-identical (registers, arrays, "
+                     "shared memory via executor and manager, unit module), faulting subroutines equal to their fault-free prefix, stop "
+                     "leaves nothing keyed by the app and the id can be registered again clean. Quick: 6 configurations, ~1e5 transitions, "
+                     "one closed graph; thorough: 8 configurations, ~1.5e6 transitions, closed graphs for several size configurations "
+                     "(any history length over those alphabets), the others depth-bounded.",
+                note="a small model predicts fault/suspend and enabling only; keep-response contract: lowest physical id neither marked used "
+                     "nor carried by a queued response; ids of queued keep-responses are tolerated in the used set; closed graphs use events "
+                     "that normalise their own scratch registers",
+                ref="3/C13"),
     "C14": dict(cat="model_checking", tech="explicit-state BFS over completed-SDK-operation histories on the builder's register economy until the state graph closes; nesting families executed on the real controller",
                 text="Breadth-first search over histories of 35 kinds of completed SDK operations plus flush (forced at the latest after 15 "
                      "operations) on one connection, hashing the builder's register economy; every transition compiles and serialises "
